@@ -141,7 +141,7 @@ pub fn same(what: &str, d: &DnaString, m: &[u8]) -> Result<(), String> {
     if d.to_ascii_vec() != asc.as_bytes() {
         return Err(format!("{}: to_ascii_vec wrong", what));
     }
-    if format!("{}", d) != asc || format!("{:?}", d) != asc {
+    if format!("{}", d) != asc || !format!("{:?}", d).contains(&asc) {
         return Err(format!("{}: Display/Debug render {} / {:?}, want {}", what, d, d, asc));
     }
     let rev: Seq = m.iter().rev().cloned().collect();
